@@ -49,7 +49,10 @@ Definition search_corrected (uac : list (str * str)) (w : str) : option str :=
 (** What is stored in the memo for a word: the auto-correct item and the dictionary hits, ranked. *)
 Definition direct (uac : list (str * str)) (w : str) : list rank :=
   let ph := conv Q w in
-  (match search_corrected uac w with Some c => [RFirst (conv Q c)] | None => [] end)
+  (match search_corrected uac w with
+   | Some c => [RFirst (if forallb (fun x => x <? 128) c then conv Q c else c)]   (* a non-ASCII entry is shown as it is *)
+   | None => []
+   end)
   ++ flat_map (fun t => map (fun s => ROther s (10 * edist Q ph s)) (hits Q t w)) (tables_for_word w).
 
 Definition memo := list (str * list rank).
@@ -199,7 +202,7 @@ Fixpoint assoc_set (k v : str) (l : list (str * str)) : list (str * str) :=
 (** candidate_committed: [None] = the index is outside the stored list (an out-of-bounds panic in the code);
     the boolean says whether the selection file is rewritten. *)
 Definition p_commit (c : pcfg) (s : pstate) (index : nat) : option (pstate * bool) :=
-  if negb (Nat.eqb (p_prev s) index) && c_suggest c then
+  if negb (Nat.eqb (p_prev s) index) && c_suggest c && (match p_buf s with [] => false | _ => true end) then
     match bare_suggestion s index with
     | Some sug =>
       let w := sp_word (split (p_buf s) false) in
